@@ -83,33 +83,132 @@ def doc_tables(doc):
     return idx, plain
 
 
+_VIEW = {}
+
+
+def builder_view(m, f):
+    """inlined view of a PyO3 builder: free helper functions of the extension crate (shared `flatten_..` / summary helpers)
+    and private methods are spliced in; the #[pymethods] themselves are never inlined into one another"""
+    from analysis.inline import Inliner
+    from analysis.query import FnQ
+    if "inl" not in _VIEW or _VIEW.get("prog") is not m.prog:
+        def policy(caller, callee):
+            return callee is not None and callee.crate.name == caller.crate.name == "bourse" and callee.impl_trait is None and \
+                (callee.kind == "Fn" or (callee.kind == "AssocFn" and not callee.pub))
+        _VIEW["inl"] = Inliner(m.prog, policy)
+        _VIEW["prog"] = m.prog
+        _VIEW["q"] = {}
+    if f.path not in _VIEW["q"]:
+        m.ctx.analysed_fns.add(f.path)
+        _VIEW["q"][f.path] = FnQ(m.w, _VIEW["inl"].inlined(f))
+    return _VIEW["q"][f.path]
+
+
+APPENDERS = ("push", "extend", "extend_from_slice")
+MUTATORS = ("resize", "resize_with", "truncate", "insert", "remove", "append", "swap", "clear", "drain", "retain", "fill", "reverse", "sort", "pop", "set_len",
+            "split_off", "dedup", "rotate_left", "rotate_right", "swap_remove")
+
+
 def array_elements(m, f):
-    """(prefix element exprs, loop pushes exprs, loop range) of an observation-array builder"""
-    q = m.q(f)
+    """Abstract contents of the array an observation builder hands to `to_pyarray`:
+    (prefix element exprs, per-level element exprs, (lo, hi) level range or None, problems).
+
+    The array is either an array literal (level-1 builders) or a Vec that starts from a literal / `to_vec()` of one / empty
+    and is then appended to: appends outside a loop extend the prefix, appends inside THE level loop form the per-level
+    block (`push(x)` or `extend([a, b, c, d])`), read through the loop's symbolic item (index loop, `iter().zip().enumerate()`,
+    `take(k)` ...).  Any other mutation of the vector, a second loop, an early loop exit or a conditional append is a
+    problem (reported by the caller)."""
+    from analysis.iterelem import loop_item, rewrite
+    q = builder_view(m, f)
+    problems = []
+    sinks = [c for c in q.calls("to_pyarray")]
+    if len(sinks) != 1:
+        return None, [], None, ["%d to_pyarray calls" % len(sinks)]
+    recv = sinks[0].args[0]
+
+    def lit_elems(e):
+        for x in walk(e):
+            if x[0] == "agg" and x[1] == "array":
+                return list(x[3])
+        return None
+    if recv[0] != "local":
+        els = lit_elems(recv)
+        return els, [], None, ([] if els is not None else ["array value %s not understood" % render(recv)[:80]])
+    V = recv[1]
+    # initial contents: the definition of V
+    defs = q.ev.def_sites().get(V, [])
     prefix = None
-    # array literal assigned to a local / written into the vec! box
-    for blk in f.body.blocks:
-        if blk.cleanup:
-            continue
-        for i, st in enumerate(blk.stmts):
-            if st.k == "assign" and st.rv.k == "agg" and st.rv.j.get("ak") == "array" and len(st.rv.ops) >= 4:
-                e = strip(q.ev.rvalue(st.rv, (blk.i, i)))
-                prefix = list(e[3])
-    pushes = [c for c in q.calls("push") if q.cfg.in_loop(c.b)]
-    pushes = sorted(pushes, key=lambda c: len(q.body.dominators().get(c.b, ())))
+    if len(defs) == 1:
+        d = defs[0]
+        e = strip(q.ev.call_expr(d[1])) if d[0] == "c" else strip(q.ev.rvalue(q.fn.body.blocks[d[1]].stmts[d[2]].rv, (d[1], d[2])))
+        if e[0] == "agg" and e[1] == "array":
+            return list(e[3]), [], None, []
+        if e[0] == "call" and e[4] in ("new", "with_capacity") and "Vec" in e[1]:
+            prefix = []
+        else:
+            prefix = lit_elems(e)
+    if prefix is None:
+        # vec![..] writes the literal into a box: the first array literal of the body
+        for blk in q.fn.body.blocks:
+            if blk.cleanup or prefix is not None:
+                continue
+            for i, st in enumerate(blk.stmts):
+                if st.k == "assign" and st.rv.k == "agg" and st.rv.j.get("ak") == "array" and len(st.rv.ops) >= 4 and not q.cfg.in_loop(blk.i):
+                    prefix = list(strip(q.ev.rvalue(st.rv, (blk.i, i)))[3])
+                    break
+    if prefix is None:
+        return None, [], None, ["initial contents of the vector not understood"]
+    nxs = [c for c in q.calls("next") if q.cfg.in_loop(c.b)]
+    heads = q.body.loop_heads()
+    per_level = []
     rng = None
-    nx = [c for c in q.calls("next") if q.cfg.in_loop(c.b)]
-    if len(nx) == 1:
-        from .stepmodel import StepShape
-        s = StepShape.__new__(StepShape)
-        s.q = q
-        ch = StepShape.iter_chain(s, nx[0])
-        if ch and ch[:-1] == ["into_iter"] and ch[-1][0] == "agg" and ch[-1][2].endswith("Range::Range"):
-            lo, hi = ch[-1][3]
-            if lo[0] == "const" and hi[0] == "const":
-                rng = (lo[3], hi[3])
-    other_pushes = [c for c in q.calls("push") if not q.cfg.in_loop(c.b)]
-    return prefix, [c.args[1] for c in pushes], rng, other_pushes
+    sym = None
+    if len(heads) > 1 or len(nxs) > 1:
+        problems.append("%d loops" % len(heads))
+    if len(nxs) == 1:
+        sym, bounds = loop_item(q, nxs[0])
+        if sym is None:
+            problems.append("level loop iterator not understood (restricting / reordering adapter?)")
+        else:
+            rngs = [bd for bd in bounds if bd[0] == "range"]
+            takes = [bd for bd in bounds if bd[0] == "take"]
+            colls = [bd for bd in bounds if bd[0] == "coll"]
+            if rngs and not takes and not colls:
+                lo, hi = rngs[0][1], rngs[0][2]
+                rng = (lo[3], hi[3]) if lo[0] == "const" and hi[0] == "const" else None
+            elif colls and all("price_levels" in ".".join(field_chain(bd[1])[1]) for bd in colls) and not rngs:
+                if takes:
+                    k = takes[0][1]
+                    rng = (0, k[3]) if k[0] == "const" else None
+                else:
+                    rng = (0, 10)     # every published level of Level2Data<10> (the environment's default LEVELS)
+            if rng is None:
+                problems.append("level loop bounds not understood")
+        if not q.cfg.loop_runs_to_completion(list(heads)[0])[0]:
+            problems.append("the level loop can be left early")
+    for c in q.ordered(q.calls()):
+        if not c.args or c.args[0] != ("local", V):
+            continue
+        if c.name in MUTATORS:
+            problems.append("the vector is also modified by %s" % c.name)
+            continue
+        if c.name not in APPENDERS:
+            continue
+        els = [c.args[1]] if c.name == "push" else lit_elems(c.args[1])
+        if els is None:
+            problems.append("%s of %s not understood" % (c.name, render(c.args[1])[:60]))
+            continue
+        if q.cfg.in_loop(c.b):
+            if [a for a in c.guards if not (a[0] == "variant" and a[2] == ("Some",))]:
+                problems.append("append in the level loop is conditional on [%s]" % c.gtext())
+            if sym is not None:
+                els = [rewrite(x, nxs[0], sym) for x in els]
+            per_level.extend(els)
+        else:
+            if c.guards:
+                problems.append("append conditional on [%s]" % c.gtext())
+            prefix.extend(els)
+    return prefix, per_level, rng, problems
 
 
 def run(ctx):
@@ -123,12 +222,20 @@ def run(ctx):
     for cls, name, length, leveled in builders:
         f = prog.method(cls, name, crate="bourse")
         programs += 1
-        prefix, pushes, rng, other = array_elements(m, f)
+        prefix, pushes, rng, problems = array_elements(m, f)
         idx, plain = doc_tables(f.doc)
         tag = "%s.%s" % (cls, name)
         if prefix is None or not idx:
-            ctx.lost("layout", "%s: array literal / documented index table not found" % tag)
+            ctx.lost("layout", "%s: array construction (%s) / documented index table not found" % (tag, "; ".join(problems) or "ok"))
             continue
+        ctx.check(not problems, "layout", tag + "|construction", ctx.loc(f), "the array is built only from a literal prefix and unconditional per-level appends of one complete level loop",
+                  "array construction: %s (elements behind would not hold the documented quantities)" % "; ".join(problems))
+        if not leveled and pushes and rng == (0, 1):
+            # a shared builder called for a single level: level 0 spelled out
+            from analysis.iterelem import rewrite_with, I
+            zero = ("const", "usize", "0_usize", 0)
+            prefix = prefix + [rewrite_with(x, lambda y: y == I, zero) for x in pushes]
+            pushes = []
         code = [describe_code(e) for e in prefix]
         docrows = [describe_doc(idx[i]) for i in sorted(idx)]
         ctx.check(sorted(idx) == list(range(len(idx))), "layout", tag + "|doc-indices", ctx.loc(f), "documented indices are 0..%d without gaps" % (len(idx) - 1))
@@ -147,7 +254,7 @@ def run(ctx):
         if not leveled:
             ctx.check(len(code) == length == len(docrows), "layout", tag + "|length", ctx.loc(f), "length %d as documented" % length,
                       "array has %d elements, documentation lists %d" % (len(code), len(docrows)))
-            ctx.check(not pushes and not other, "layout", tag + "|no-extra", ctx.loc(f), "no further elements are appended")
+            ctx.check(not pushes, "layout", tag + "|no-extra", ctx.loc(f), "no further elements are appended")
         else:
             ctx.check(len(code) == 5 == len(docrows), "layout", tag + "|prefix", ctx.loc(f), "5 leading scalar elements as documented", "%d leading elements, %d documented" % (len(code), len(docrows)))
             pc = [describe_code(e) for e in pushes]
@@ -157,19 +264,8 @@ def run(ctx):
                 disagreements += 1
             ctx.check(ok, "layout", tag + "|per-level", ctx.loc(f), "per level: %s as documented" % [x[:2] for x in pc],
                       "per-level elements are %s but documented as %s" % (pc, pd_))
-            ctx.check(rng == (0, 10) and not other, "layout", tag + "|levels", ctx.loc(f), "level loop ranges over 0..10 (5 + 4*10 = 45 elements)", "level loop range is %s" % (rng,))
-            q = m.q(f)
-            heads = q.body.loop_heads()
-            full = len(heads) == 1 and q.cfg.loop_runs_to_completion(list(heads)[0])[0]
-            pcalls = q.ordered([c for c in q.calls("push") if q.cfg.in_loop(c.b)])
-            every = all(all(a[0] == "variant" and a[2] == ("Some",) for a in c.guards) for c in pcalls)
-            ctx.check(full and every, "layout", tag + "|all-levels", ctx.loc(f), "every level is appended: the loop has no early exit and the 4 pushes are unconditional",
-                      "the level loop can stop early or skip pushes (levels behind would not hold the documented quantities)")
-            MUT = ("resize", "resize_with", "truncate", "insert", "remove", "extend", "extend_from_slice", "append", "swap", "clear", "drain", "retain", "fill", "reverse", "sort", "pop", "set_len", "split_off")
-            other_mut = [c.name for c in q.calls() if c.name in MUT and c.args and c.args[0][0] == "local"]
-            ctx.check(not other_mut, "layout", tag + "|no-other-mutation", ctx.loc(f), "the array is built only by the literal prefix and the level pushes",
-                      "the array is also modified by %s" % other_mut)
-            # all pushes use the loop variable as the level index
+            ctx.check(rng == (0, 10), "layout", tag + "|levels", ctx.loc(f), "the level loop covers levels 0..10 (5 + 4*10 = 45 elements)", "level loop range is %s" % (rng,))
+            # all per-level elements are indexed by the loop position
             ctx.check(all(x[2] == "n" for x in pc if len(x) == 3), "layout", tag + "|level-index", ctx.loc(f), "every per-level element is indexed by the loop variable")
     # base_agent.py docstring vs StepEnvNumpy.level_2_data
     pyf = os.path.join(ctx.repo, "src", "bourse", "step_sim", "agents", "base_agent.py")
@@ -180,7 +276,7 @@ def run(ctx):
         pyidx = {int(i): t for i, t in rows}
         lvl_rows = [t for t in re.findall(r"^\s*-\s*((?:Bid|Ask|Number)[^\n]*at level)\s*$", src, re.M)]
         f = prog.method("StepEnvNumpy", "level_2_data", crate="bourse")
-        prefix, pushes, rng, other = array_elements(m, f)
+        prefix, pushes, rng, _problems = array_elements(m, f)
         code = [describe_code(e) for e in prefix or []]
         docrows = [describe_doc(pyidx[i]) for i in sorted(pyidx)]
         ok = code == docrows and len(docrows) == 5
@@ -199,7 +295,7 @@ def run(ctx):
     for cls in ("StepEnv", "StepEnvNumpy"):
         f = prog.method(cls, "get_market_data", crate="bourse")
         programs += 1
-        q = m.q(f)
+        q = builder_view(m, f)
         doc_templ = set(x + "_<N>" for x in re.findall(r"``(\w+?)_<N>``", f.doc))
         doc_plain = set(re.findall(r"``(\w+)``", f.doc))
         pairs = {}
@@ -219,15 +315,17 @@ def run(ctx):
                         key = y[2].strip('"')
                 pairs[key] = v
         templ = {}
-        for (cq, ops, cnames, _b) in q.closures():
-            r = cq.ret()
-            if r[0] == "agg" and r[1] == "tuple" and len(r[3]) == 2:
-                k, v = r[3]
-                t = None
-                for y in walk(k):
-                    if y[0] == "const" and isinstance(y[2], str) and y[2].startswith('b"'):
-                        t = decode_template(y[2])
-                templ[t] = (v, cq)
+        # per-level families: every `extend(dict, from_fn(..))`, read through the element expression at index i (closures
+        # beta-reduced, a shared column-building helper inlined, constant prefixes substituted into the key template)
+        from analysis.beta import from_fn_element
+        exts = [c for c in q.calls("extend") if len(c.args) == 2]
+        for c in exts:
+            E = from_fn_element(m.w, c.args[1], ("var", "i"))
+            if E is None or not (E[0] == "agg" and E[1] == "tuple" and len(E[3]) == 2):
+                templ["?%s" % render(c.args[1])[:40]] = (("unk",), None)
+                continue
+            k, v = E[3]
+            templ[format_key(k)] = (v, None)
         ok = set(pairs) == doc_plain and set(templ) == doc_templ
         if not ok:
             disagreements += 1
@@ -240,7 +338,7 @@ def run(ctx):
             if not ok:
                 disagreements += 1
             ctx.check(ok, "dict", "%s|%s" % (cls, key), ctx.loc(f), "key \"%s\" -> %s" % (key, got), "key \"%s\" is bound to %s (expected %s)" % (key, got, want))
-        n_ext = len(q.calls("extend"))
+        n_ext = len(exts)
         ctx.check(n_ext == len(templ) == 4, "dict", cls + "|extends", ctx.loc(f), "all %d per-level families are added to the dictionary" % n_ext, "%d families built, %d added" % (len(templ), n_ext))
         samples.append({"dict": cls, "keys": sorted(k for k in pairs if k), "templates": sorted(k for k in templ if k)})
 
@@ -306,6 +404,63 @@ def decode_template(s):
     return body + "<N>"
 
 
+def format_key(e, index_var=("var", "i")):
+    """text of `format!(..)` key expression e with literal pieces kept, constant string arguments substituted and the
+    index variable rendered as <N>; None if e is not a format call we understand.
+    Template encoding (rustc format_args lowering): [len L][L literal bytes] | 0xC0 (= next argument) ..., 0x00 terminator."""
+    fm = [x for x in walk(e) if x[0] == "call" and x[4] == "new" and x[2] and x[2][0][0] == "const" and isinstance(x[2][0][2], str) and x[2][0][2].startswith('b"')]
+    if not fm:
+        return None
+    c = fm[0]
+    raw = c[2][0][2][2:-1]
+    # decode the escaped byte string
+    bs = bytearray()
+    i = 0
+    while i < len(raw):
+        if raw[i] == "\\" and i + 1 < len(raw):
+            n = raw[i + 1]
+            if n == "x":
+                bs.append(int(raw[i + 2:i + 4], 16))
+                i += 4
+                continue
+            bs.append({"n": 10, "t": 9, "r": 13, "0": 0, "\\": 92, '"': 34, "'": 39}.get(n, ord(n)))
+            i += 2
+            continue
+        bs.append(ord(raw[i]))
+        i += 1
+    args = []
+    if len(c[2]) > 1:
+        for x in walk(c[2][1]):
+            if x[0] == "call" and x[4].startswith("new_") and x[2]:
+                args.append(x[2][0])
+    out = ""
+    k = 0
+    ai = 0
+    while k < len(bs):
+        b = bs[k]
+        if b == 0:
+            break
+        if b == 0xC0:
+            a = args[ai] if ai < len(args) else None
+            ai += 1
+            if a is None:
+                return None
+            if a == index_var or (a[0] == "param" and a[1] == 2):
+                out += "<N>"
+            elif a[0] == "const" and isinstance(a[2], str) and a[2].startswith('"'):
+                out += a[2].strip('"')
+            else:
+                out += "{%s}" % render(a)
+            k += 1
+            continue
+        if b < 0x80:
+            out += bs[k + 1:k + 1 + b].decode("utf8", "replace")
+            k += 1 + b
+            continue
+        return None
+    return out
+
+
 def series_for_key(key):
     if key is None:
         return None
@@ -340,6 +495,6 @@ def series_of(v):
             lvl = None
             if series.endswith("_at_levels"):
                 ix = [x for x in walk(src) if x[0] == "index"]
-                lvl = "i" if ix and ix[0][2][0] == "param" else ("?" if not ix else render(ix[0][2]))
+                lvl = "i" if ix and (ix[0][2][0] == "param" or ix[0][2] == ("var", "i")) else ("?" if not ix else render(ix[0][2]))
             return (series, mm.group(1), lvl)
     return ("?", txt)
